@@ -209,7 +209,20 @@ def problems_of(spec, base):
                     out.append(('resolve:extension:%s' % sk[0], 'name=%s importlib=%s supp=%s' % (name, rk[1], sk)))
         elif rk[0] == 'none':
             if loaded:
-                if sk[0] == 'none' or sk[0].startswith('exc:'):
+                # a name that is only in sys.modules (os.path) must not be refused - unless a file of the generated tree shadows
+                # one of its parents: then the loaded module is a child of some OTHER package of that name
+                shadow = None
+                parts_ = name.split('.')
+                for i in range(1, len(parts_)):
+                    pk = ref_kind(ref_find('.'.join(parts_[:i]), roots))
+                    if pk[0] == 'file' and pk[1] in TAGS:
+                        shadow = pk[1]
+                        break
+                if shadow is not None:
+                    if sk[0] != 'none':
+                        out.append(('resolve:loaded-child-of-a-shadowed-package', 'name=%s: %s shadows its parent, importlib finds nothing; supp=%s' % (
+                            name, os.path.relpath(shadow, base), sk)))
+                elif sk[0] == 'none' or sk[0].startswith('exc:'):
                     out.append(('resolve:loaded-module-refused:%s' % sk[0], 'name=%s is in sys.modules' % name))
             else:
                 stats['absent'] += 1
